@@ -12,6 +12,8 @@ CONSTANTS
  AllowWith = TRUE
  AllowVars = FALSE
  MaxUses = 2
+ AllowFlat = FALSE
+ MoveAfterRename = FALSE
  OldWith = TRUE
  RestoreOwn = FALSE
 INVARIANTS WithCross
